@@ -73,25 +73,46 @@ def run(repo='/repo', tier='quick'):
             res.holds('C16.b', key, 'guarded by ' + ('the tunnel probe finding a non-HTTP method' if probe else 'status 101 without T-E and C-L'), x['loc'])
         else:
             res.violated('C16.b', key, 'tunnel mode is entered outside the documented conditions (2xx CONNECT + non-HTTP bytes, or 101 without body headers); guards here: %s' % facts[-4:], x['loc'])
+    def reach(f, start, avoid, skip_edges):
+        seen, w = set(), [start]
+        while w:
+            c = w.pop()
+            if c in seen or c in avoid:
+                continue
+            seen.add(c)
+            for j_, s_ in enumerate(f.blocks[c]['succs']):
+                if s_ is not None and (c, j_) not in skip_edges:
+                    w.append(s_)
+        return seen
+
+    def final_guard_edges(f, fld):
+        """false edges of the tests `connp-><fld> != HTP_STREAM_ERROR` / `!= HTP_STREAM_STOP`: taken only when that direction is in a final state, which is kept"""
+        out = set()
+        for bb in f.blocks:
+            c = f.cond_of(bb)
+            a = P.canon(c[0]) if c else None
+            if a and a[0] == 'connp->' + fld and a[2] in ('HTP_STREAM_ERROR', 'HTP_STREAM_STOP'):
+                if a[1] == '!=':
+                    out.add((bb, 1))
+                elif a[1] == '==':
+                    out.add((bb, 0))
+        return out
     for f in {w[0].name: w[0] for w in writers}.values():
         outs = [(b, i, x) for ff, fld, b, i, x in writers if ff is f and fld == 'out_status']
         ins = [(b, i, x) for ff, fld, b, i, x in writers if ff is f and fld == 'in_status']
         for b, i, x in outs:
-            # every path to the out write passes an in write, or the edge (in_status == ERROR)
+            # every path to the out write passes an in write, unless the request side is in a final state (ERROR / STOP), which is kept
             avoid = {ib for ib, ii, ix in ins}
-            skip = None
-            for bb in f.blocks:
-                c = f.cond_of(bb)
-                if c and P.canon(c[0]) == ('connp->in_status', '!=', 'HTP_STREAM_ERROR') and f.blocks[bb]['succs'][0] in avoid:
-                    skip = (bb, 1)
             same_block_before = any(ib == b and ii < i for ib, ii, ix in ins)
-            ok = same_block_before or (b not in C.reachable(f, f.entry, skip_edge=skip, avoid=avoid - {b}))
-            res.check(ok, 'C16.b', f.name + ':out=TUNNEL-implies-in=TUNNEL', 'every path that puts the response side into tunnel mode also does so for the request side (unless it is in ERROR)',
+            ok = same_block_before or (b not in reach(f, f.entry, avoid - {b}, final_guard_edges(f, 'in_status')))
+            res.check(ok, 'C16.b', f.name + ':out=TUNNEL-implies-in=TUNNEL', 'every path that puts the response side into tunnel mode also does so for the request side (unless that side is in ERROR or STOP)',
                       'a path sets out_status = TUNNEL without in_status = TUNNEL: the request direction would keep parsing tunnelled bytes', x['loc'])
         for b, i, x in ins:
-            pd = C.postdominators(f)
-            ok = any(ob == b and oi > i for ob, oi, ox in outs) or any(ob in pd[b] for ob, oi, ox in outs)
-            res.check(ok, 'C16.b', f.name + ':in=TUNNEL-implies-out=TUNNEL', 'every path that sets in_status = TUNNEL goes on to set out_status = TUNNEL',
+            # from the in write every path to the exit passes an out write, unless the response side is in a final state
+            same_block_after = any(ob == b and oi > i for ob, oi, ox in outs)
+            avoid = {ob for ob, oi, ox in outs}
+            ok = same_block_after or (f.exit not in reach(f, b, avoid - {b}, final_guard_edges(f, 'out_status')))
+            res.check(ok, 'C16.b', f.name + ':in=TUNNEL-implies-out=TUNNEL', 'every path that sets in_status = TUNNEL goes on to set out_status = TUNNEL (unless that side is in ERROR or STOP)',
                       'a path sets in_status = TUNNEL without out_status = TUNNEL', x['loc'])
 
     # --- C16.e the response side releases a suspended request side only for a refused CONNECT
@@ -301,6 +322,7 @@ def c16h(db, res):
 # every access of a request-side function to response-side state (and vice versa) on the pinned tree, with why it is there
 CROSS = {
     ('htp_connp_REQ_CONNECT_PROBE_DATA', 'out_status', 'W'): 'tunnel mode is entered for both directions together (C16.b)',
+    ('htp_connp_REQ_CONNECT_PROBE_DATA', 'out_status', 'R'): 'guard of that store: a response side in ERROR or STOP keeps its final state (C09.f, D23 repair)',
     ('htp_connp_REQ_CONNECT_WAIT_RESPONSE', 'response_status_number', 'R'): 'the answer to the CONNECT decides tunnel vs HTTP',
     ('htp_connp_REQ_CONNECT_WAIT_RESPONSE', 'response_progress', 'R'): 'the CONNECT wait gate (C16.c / C16.g)',
     ('htp_connp_RES_BODY_DETERMINE', 'request_method_number', 'R'): 'CONNECT / HEAD decide how the response is framed',
